@@ -25,7 +25,8 @@ RULE = ("(a) Hypothesis RuleBasedStateMachine: rules new_solver(problem recipe, 
         "{Solve A, Solve B, step A, step B}: evaluation logs and results must equal those of the same calls with a "
         "parameters object per solver. (d) two solvers with different parameter sets built on ONE problem object "
         "(generated or shipped), same call orders, in a third of the cases one solver's own evolvent is re-targeted to a "
-        "sub-box in between: each solver's evaluations and results must equal those it has with "
+        "sub-box in between (for shipped families also: two live instances of one family, a problem object each, against "
+        "create-solve-read one after the other): each solver's evaluations and results must equal those it has with "
         "a problem object of its own. Distinct = distinct rule sequence / (problems, interleaving).")
 ASSUMPTIONS = [
     "solo references are computed in the same process (other solvers exist but are idle)",
@@ -458,6 +459,20 @@ def same_problem_cases(draw):
         # solver A is re-targeted to a sub-box through its own evolvent (Evolvent.SetBounds): A's business only
         ops.append("zoomA")
     ops = draw(st.permutations(ops))
+    if "shipped" in rec and draw(st.booleans()):
+        # instead: two live instances of ONE shipped family (different members, an object each), interleaved; each
+        # solver must do what it does when its problem is created, solved and read before the other one exists
+        name, arg = rec["shipped"]
+        if name in ("hill", "shekel"):
+            other = (arg + 1 + draw(st.integers(0, 997))) % 1000
+        elif name == "grishagin":
+            other = draw(st.sampled_from([a for a in (1, 2, 3, 11, 12, 21, 31, 41) if a != arg]))
+        elif name in ("rastrigin", "xsquared"):
+            other = 1 + arg % 4
+        else:
+            other = [arg[0], 1 + arg[1] % 100]
+        return {"recipe": rec, "sibling": dict(rec, shipped=[name, other]), "pa": ps[0], "pb": ps[1],
+                "ops": [o for o in ops if o != "zoomA"], "k": draw(st.sampled_from([1, 3, 7]))}
     return {"recipe": rec, "pa": ps[0], "pb": ps[1], "ops": list(ops), "k": draw(st.sampled_from([1, 3, 7]))}
 
 
@@ -496,7 +511,61 @@ def drive_same_problem(case, shared):
     return out, bounds
 
 
+def drive_siblings(case, interleaved):
+    pa, pb = case["pa"], case["pb"]
+    order = case["ops"] if interleaved else ([o for o in case["ops"] if o.endswith("A")] +
+                                              [o for o in case["ops"] if o.endswith("B")])
+    runs, done, logs, out = {}, {"A": False, "B": False}, {"A": [], "B": []}, {}
+
+    def get(who):
+        if who not in runs:
+            p = pa if who == "A" else pb
+            runs[who] = Run(case["recipe"] if who == "A" else case["sibling"], p, record=False,
+                            refine=bool(p.get("refine")))
+        return runs[who]
+    if interleaved:
+        get("A"), get("B")           # both problem objects exist before either solver runs
+    for op in order:
+        who = op[-1]
+        r = get(who)
+        try:
+            if op.startswith("solve"):
+                r.solve()
+                done[who] = True
+            elif not done[who]:
+                r.step(case["k"])
+        except Exception as e:
+            if "outside of interval" not in str(e):
+                raise
+            done[who] = True
+        if not interleaved and op == [o for o in order if o.endswith(who)][-1]:
+            sol = r.results()        # read before the other problem exists
+            out[who] = ([(y, v) for _, y, v in r.problem.log],
+                        (best_of(sol), sol.numberOfGlobalTrials, sol.numberOfLocalTrials) if r.problem.log else None)
+    if interleaved:
+        for who, r in runs.items():
+            sol = r.results()
+            out[who] = ([(y, v) for _, y, v in r.problem.log],
+                        (best_of(sol), sol.numberOfGlobalTrials, sol.numberOfLocalTrials) if r.problem.log else None)
+    return out
+
+
+def siblings_body(case):
+    alone = drive_siblings(case, interleaved=False)
+    together = drive_siblings(case, interleaved=True)
+    for who in ("A", "B"):
+        if together.get(who) != alone.get(who):
+            a, b = together.get(who), alone.get(who)
+            fail("two live problems of one shipped family (%r and %r), calls %r (k=%d): solver %s makes %d evaluations / "
+                 "returns %r; when its problem is created, solved and read before the other exists %d / %r" %
+                 (case["recipe"]["shipped"], case["sibling"]["shipped"], case["ops"], case["k"], who,
+                  len(a[0]) if a else -1, a[1] if a else None, len(b[0]) if b else -1, b[1] if b else None))
+    return True, ["siblings:" + case["recipe"]["shipped"][0]]
+
+
 def same_problem_body(case):
+    if case.get("sibling"):
+        return siblings_body(case)
     own, b0 = drive_same_problem(case, shared=False)
     shared, b1 = drive_same_problem(case, shared=True)
     if b0 != b1:
